@@ -12,6 +12,10 @@ while args and args[0].startswith("--"):
     elif args[0] == "--props":
         props_override = args[1].split(","); args = args[2:]
 for item in args:
+    item_props = None
+    if "@" in item:
+        item, ip = item.split("@", 1)
+        item_props = ip.split(",")
     item = item.rstrip("/")
     if os.path.isdir(item):
         patch = os.path.join(item, "patch.diff")
@@ -24,6 +28,8 @@ for item in args:
         expect = meta.get("expect_key")
     if props_override:
         props = props_override
+    if item_props:
+        props = item_props
     st = subprocess.run(["git", "-C", repo, "status", "--porcelain", "--untracked-files=no"], capture_output=True, text=True).stdout
     assert not st.strip(), repo + " is dirty: " + st
     r = subprocess.run(["git", "-C", repo, "apply", os.path.abspath(patch)], capture_output=True, text=True)
